@@ -29,7 +29,10 @@ class Rule :
     def add(self, key, value):
         # if key in ('mtype', 'sender', 'interface', 'member', 'path',
         # 'destination'):
-        if key in ('mtype', 'interface', 'member', 'path', 'destination'):
+        if key == '_messageType':
+            # the rule names the type ('signal', ...), messages carry its code
+            self.simple.append((key, _mtypes.get(value, value)))
+        elif key in ('interface', 'member', 'path', 'destination'):
             self.simple.append((key, value))
         else:
             setattr(self, key, value)
@@ -40,24 +43,42 @@ class Rule :
     def match(self, m):
         try:
             for k, v in self.simple:
-                if getattr(m, k) != v:
+                if getattr(m, k, None) != v:
                     return
 
+            body = m.body if m.body is not None else []
+
             if hasattr(self, 'path_namespace'):
-                if (
-                    m.path is None
-                    or not m.path.startswith(self.path_namespace)
+                ns = self.path_namespace
+                path = getattr(m, 'path', None)
+                # the namespace itself or any object beneath it
+                if path is None or not (
+                    path == ns
+                    or ns == '/'
+                    or path.startswith(ns + '/')
                 ):
                     return
 
-            if hasattr(self, 'args') and m.body is not None:
+            if hasattr(self, 'args'):
                 for idx, val in self.args:
-                    if idx >= len(m.body) or m.body[idx] != val:
+                    if (
+                        idx >= len(body)
+                        or not isinstance(body[idx], str)
+                        or body[idx] != val
+                    ):
                         return
 
-            if hasattr(self, 'arg_paths') and m.body is not None:
+            if hasattr(self, 'arg_paths'):
                 for idx, val in self.arg_paths:
-                    if idx >= len(m.body) or not m.body[idx].startswith(val):
+                    if idx >= len(body) or not isinstance(body[idx], str):
+                        return
+                    arg = body[idx]
+                    # equal, or whichever ends in '/' is a prefix of the other
+                    if not (
+                        arg == val
+                        or (arg.endswith('/') and val.startswith(arg))
+                        or (val.endswith('/') and arg.startswith(val))
+                    ):
                         return
 
             # XXX arg0namespace -- Not quite sure how this one works
@@ -123,5 +144,7 @@ class MessageRouter :
 
     def routeMessage(self, m):
         # print 'ROUTING MSG', m.interface, m.member
-        for r in self._rules.values():
-            r.match(m)
+        # callbacks may add or remove rules while the message is routed
+        for r in list(self._rules.values()):
+            if r.id in self._rules:
+                r.match(m)
